@@ -523,6 +523,97 @@ pub fn run_c09(ctx: &Ctx) -> Report {
         }
     });
     rep.merge(r);
+    // ---- metadata replies behind commands that must not be answered (long data for an id that was
+    //      closed or never prepared, long data for an out-of-range parameter, CLOSE of unknown ids):
+    //      whatever the server does with the connection, every PREPARE reply and resultset header
+    //      that does reach the client is the one of ITS command
+    let n = if ctx.miri { 2 } else { ctx.n(400, 10_000) };
+    let r = par_cases(ctx, "C09", "after-stray-commands", n, |rng, i, rep| {
+        let warm = gen_cols(rng, 2, false);
+        let (n1, n2, n3, n4, n5) = (rng.below(3) as usize, rng.range(1, 3) as usize, rng.below(3) as usize, rng.range(1, 4) as usize, rng.range(1, 4) as usize);
+        let a_params = gen_cols(rng, n1, false);
+        let a_cols = gen_cols(rng, n2, false);
+        let b_params = gen_cols(rng, n3, false);
+        let b_cols = gen_cols(rng, n4, false);
+        let c_cols = gen_cols(rng, n5, false);
+        let mut cmds = vec![Cmd::prepare(b"warm")];
+        let mut scripts = vec![Script::PrepOk { id: 7, params: vec![], cols: warm.clone() }];
+        let stray = rng.below(4);
+        let sname = match stray {
+            0 => {
+                cmds.push(Cmd::close(7));
+                cmds.push(Cmd::long_data(7, 0, b"late chunk"));
+                "long data for a statement closed just before"
+            }
+            1 => {
+                cmds.push(Cmd::long_data(4242, 0, b"for nobody"));
+                "long data for an id never prepared"
+            }
+            2 => {
+                cmds.push(Cmd::long_data(7, 9, b"beyond the parameters"));
+                "long data for an out-of-range parameter"
+            }
+            _ => {
+                cmds.push(Cmd::close(99));
+                cmds.push(Cmd::close(7));
+                cmds.push(Cmd::close(7));
+                "CLOSE of unknown and already closed ids"
+            }
+        };
+        let first = cmds.len();
+        cmds.push(Cmd::prepare(b"A"));
+        scripts.push(Script::PrepOk { id: 1001, params: a_params.clone(), cols: a_cols.clone() });
+        cmds.push(Cmd::prepare(b"B"));
+        scripts.push(Script::PrepOk { id: 2002, params: b_params.clone(), cols: b_cols.clone() });
+        cmds.push(Cmd::query(b"C"));
+        scripts.push(Script::Q(QProg { colsets: vec![c_cols.clone()], ops: vec![QOp::Start(0), QOp::Finish], on_err: OnErr::Drop }));
+        let mut case = Case::new(cmds, scripts);
+        if rng.bool() {
+            case.arrival = Arrival::Pipelined(1);
+        }
+        let obs = run_case(&case);
+        rep.evaluations += 1;
+        if harness_panic(&obs, rep) {
+            return;
+        }
+        rep.counters.class(format!("metadata replies after {} -> {}", sname, obs.outcome.class()));
+        let d = || J::obj().set("stray", sname).set("arrival", format!("{:?}", case.arrival)).set("outcome", obs.outcome.describe());
+        if i == 0 {
+            rep.sample(d());
+        }
+        let Ok((_, _, dec)) = decode_output(&obs) else { return };
+        // exchanges: greeting, auth, warm, [stray commands: no reply], A, B, C
+        let mut ri = 3;
+        for (k, cmd) in case.cmds.iter().enumerate().skip(first) {
+            let Some(r) = dec.resps.get(ri) else { break };
+            ri += 1;
+            let (want_id, wp, wc): (u32, &Vec<Column>, &Vec<Column>) = if k == first { (1001, &a_params, &a_cols) } else if k == first + 1 { (2002, &b_params, &b_cols) } else { (0, &c_cols, &c_cols) };
+            match (cmd.kind, r) {
+                (crate::wire::Kind::Prepare, Resp::PrepareOk { id, params, cols, .. }) => {
+                    if *id != want_id || cmp_cols("parameter definition", params, wp).is_err() || cmp_cols("column definition", cols, wc).is_err() {
+                        rep.violations.push(viol("C09", "C09 reply-belongs-to-another-command".into(), format!("after {}: the reply to PREPARE #{} carries statement id {} with {} parameters and {} columns; the shim declared id {} with {} and {}", sname, k - first, id, params.len(), cols.len(), want_id, wp.len(), wc.len()), d()));
+                        return;
+                    }
+                    rep.counters.inc("prepare_ok_headers_compared");
+                }
+                (crate::wire::Kind::Query, Resp::Parts(parts)) => {
+                    match parts.first() {
+                        Some(Part::Rows { cols, .. }) if cmp_cols("column definition", cols, wc).is_ok() => rep.counters.inc("resultset_headers_compared"),
+                        other => {
+                            rep.violations.push(viol("C09", "C09 reply-belongs-to-another-command".into(), format!("after {}: the reply to the query is {:?}, not the declared resultset header", sname, other.map(|p| match p { Part::Ok(_) => "OK", Part::Err(_) => "ERR", Part::Rows { .. } => "another resultset" })), d()));
+                            return;
+                        }
+                    }
+                }
+                (kind, other) => {
+                    rep.violations.push(viol("C09", "C09 reply-belongs-to-another-command".into(), format!("after {}: {:?} was answered by {}", sname, kind, format!("{:?}", other).chars().take(80).collect::<String>()), d()));
+                    return;
+                }
+            }
+        }
+        rep.counters.inc("conversations_with_stray_commands_judged");
+    });
+    rep.merge(r);
     rep.merge(super::mega::run(ctx, "C09", 1500, 60000));
     if ctx.strict() {
         rep.require("definitions_compared", 1000);
